@@ -7,6 +7,8 @@ import (
 	"testing"
 	"testing/synctest"
 
+	"google.golang.org/protobuf/types/known/fieldmaskpb"
+
 	"go.6river.tech/mmmbbb/grpc/pubsubpb"
 
 	"verif/mc/filt"
@@ -73,7 +75,29 @@ func c07EndToEnd(t *testing.T, tier string) (map[string]int, []report.Viol) {
 				t.Fatal(err)
 			}
 			stats["publishes"] += len(maps)
-			for fi, f := range fs {
+			// two rounds: (0) filters as created; (1) every subscription's filter replaced
+			// by its neighbour's through UpdateSubscription - routing must follow the
+			// CURRENT filter of the subscription, whatever it was before
+			for round := 0; round < 2; round++ {
+			shift := 0
+			if round == 1 {
+				shift = len(fs)/2 + 1
+				for fi := range fs {
+					nf := fs[(fi+shift)%len(fs)]
+					if _, err := w.Sub.UpdateSubscription(ctx, &pubsubpb.UpdateSubscriptionRequest{
+						Subscription: &pubsubpb.Subscription{Name: fmt.Sprintf("projects/p/subscriptions/g%df%d", gi, fi), Filter: nf.Render(filt.Style{Dash: true})},
+						UpdateMask:   &fieldmaskpb.FieldMask{Paths: []string{"filter"}}}); err != nil {
+						viols = append(viols, report.Viol{Property: "C07", Check: "C07/end-to-end", Rule: "valid-filter-rejected", Text: fmt.Sprintf("UpdateSubscription with valid filter failed: %v", err), Trace: []string{nf.Render(filt.Style{Dash: true})}})
+					}
+				}
+				if _, err := w.Pub.Publish(ctx, req); err != nil {
+					t.Fatal(err)
+				}
+				stats["publishes"] += len(maps)
+			}
+			for fi, f0 := range fs {
+				f := fs[(fi+shift)%len(fs)]
+				_ = f0
 				got := map[int]bool{}
 				for {
 					resp, err := w.Sub.Pull(ctx, &pubsubpb.PullRequest{Subscription: fmt.Sprintf("projects/p/subscriptions/g%df%d", gi, fi), MaxMessages: 1000, ReturnImmediately: true})
@@ -97,9 +121,10 @@ func c07EndToEnd(t *testing.T, tier string) (map[string]int, []report.Viol) {
 					}
 					stats["deliveries_decided"]++
 					if got[mi] != (want == filt.True) {
-						viols = append(viols, report.Viol{Property: "C07", Check: "C07/end-to-end", Rule: "filter-routing", Text: fmt.Sprintf("subscription with filter %q: message with attributes %v received=%v, documented semantics say %v", f.Render(filt.Style{}), m, got[mi], want == filt.True), Trace: []string{f.Render(filt.Style{}), fmt.Sprint(m)}})
+						viols = append(viols, report.Viol{Property: "C07", Check: "C07/end-to-end", Rule: "filter-routing", Text: fmt.Sprintf("subscription with filter %q (round %d): message with attributes %v received=%v, documented semantics say %v", f.Render(filt.Style{}), round, m, got[mi], want == filt.True), Trace: []string{f.Render(filt.Style{}), fmt.Sprint(m)}})
 					}
 				}
+			}
 			}
 		}
 	})
